@@ -144,6 +144,11 @@ Definition cfg_validb (c : cfg) : bool :=
 (* ---------------------------------------------------------------- backoff *)
 (* FailureCache.backoff.  One pass of the loop body on the running ttl; the
    early [return c.maxTTL] is the fixed point max of the same step. *)
+(* the three literals of the Go loop; the loop as a whole is tied to the
+   translated function Gen.C13.go_FailureCache_backoff by Proofs_Gen.gen_backoff *)
+Definition backoff_first_generation : Z := 1.
+Definition backoff_half_divisor : Z := 2.
+Definition backoff_factor : Z := 2.
 Definition backoff_step (c : cfg) (ttl : Z) : Z :=
   if ttl <? c_max c then
     if ttl >? c_max c / backoff_half_divisor then c_max c else ttl * backoff_factor
